@@ -150,7 +150,15 @@ pub fn cond_to_engine(c: &Cond) -> ConditionGroup {
 /// against the real parser by `rule_matches` in the parser-driven part).
 pub fn rule_to_engine(r: &RuleAst) -> rust_rule_engine::Rule {
     let actions = r.actions.iter().map(|a| ActionType::Set { field: a.target.clone(), value: term_to_engine(&a.rhs) }).collect();
-    rust_rule_engine::Rule::new(r.name.clone(), cond_to_engine(&r.cond), actions).with_salience(r.salience).with_no_loop(r.no_loop)
+    // `with_priority` is documented as an alias of `with_salience`: rules with an odd name length use the alias, and
+    // no-loop rules get the flag set before the salience instead of after it (builder order carries no meaning)
+    let rule = rust_rule_engine::Rule::new(r.name.clone(), cond_to_engine(&r.cond), actions);
+    match (r.name.len() % 2 == 1, r.no_loop) {
+        (true, true) => rule.with_no_loop(true).with_priority(r.salience),
+        (true, false) => rule.with_priority(r.salience).with_no_loop(false),
+        (false, true) => rule.with_no_loop(true).with_salience(r.salience),
+        (false, false) => rule.with_salience(r.salience).with_no_loop(r.no_loop),
+    }
 }
 
 thread_local! {
